@@ -2,7 +2,7 @@ import GoImap.Drive.C04
 /-
   Driver for C06 (the server survives arbitrary input and disconnects).  Case lines:
 
-    id  cut|gen|mut|junk  lit  preauth  cut  delivered(hex)  trace  end  calls  closes  panics  drained  maxArg
+    id  cut|gen|mut|junk  lit  preauth  cut  delivered(hex)  trace  end  calls  closes  panics  drained  maxArg  idleLeft
     id  depth  shape  n  result  closes  panics  drained
     id  leak   goroutines-before  goroutines-with-servers  excess-after  tracked-connections
 
@@ -26,13 +26,14 @@ def frameName (f : FramingSpec.Frame) : NBytes :=
   | t :: _ => FramingSpec.nameOf t
   | [] => []
 
-def oracle (delivered : NBytes) (w : Wire) (endi : String) (calls : List String) (closes panics drained : String) : String :=
+def oracle (delivered : NBytes) (w : Wire) (endi : String) (calls : List String) (closes panics drained idle : String) : String :=
   let conts := w.replies.filterMap fun (p, r) => if r == .cont then some p else none
   let fs := FramingSpec.frame (fun p => conts.contains p) delivered
   if panics != "0" then "fail:server-panicked"
   else if endi == "t" then "fail:server-neither-waiting-nor-closed"
   else if closes != "1" then s!"fail:session-closed-{closes}-times"
   else if drained != "1" then "fail:connection-still-tracked-after-close"
+  else if idle != "0" then s!"fail:session-idle-still-running-after-close@{idle}"
   else
     -- a literal is buffered in memory only if it is at most 4096 octets
     let nonAppend := calls.filter fun c => !c.startsWith "Append:"
@@ -49,7 +50,14 @@ def oracle (delivered : NBytes) (w : Wire) (endi : String) (calls : List String)
           (match f.lits.getLast? with | some l => l.size ≤ 104857600 | none => false)).length
         let appendCalls := (calls.filter fun c => c.startsWith "Append:").length
         if fs.all (·.strict) && appendCalls > okAppends then "fail:append-over-limit-executed"
-        else "ok"
+        else
+          -- … and the refusal does not wait for the payload: an over-limit literal whose octets have
+          -- not (all) arrived must already have its tagged reply
+          let tags := w.replies.filterMap fun (_, r) => match r with | .tagged t _ => some t | _ => none
+          if fs.all (·.strict) && over.any (fun f => !f.complete &&
+              (match f.tag with | some t => !tags.contains t | none => false)) then
+            "fail:append-over-limit-not-refused-before-payload"
+          else "ok"
 
 def probe (shape : String) (n : Nat) : NBytes :=
   let rep (s : String) : NBytes := ((List.replicate n (Framing.strBytes s)).flatten)
@@ -86,7 +94,7 @@ def handle (f : List String) : String :=
                else if excess != "0" && !excess.startsWith "-" then s!"fail:goroutines-left-behind@{excess}"
                else "ok"
     s!"{id}\t1\t{orc}\t-"
-  | [id, _kind, lit, preauth, _cut, delivered, trace, endi, calls, closes, panics, drained, _maxArg] =>
+  | [id, _kind, lit, preauth, _cut, delivered, trace, endi, calls, closes, panics, drained, _maxArg, idle] =>
     match hexNat? delivered, parseTrace? trace with
     | some inp, some bs =>
       let w := wireOf bs
@@ -94,7 +102,7 @@ def handle (f : List String) : String :=
       let implCalls := if calls == "-" then [] else splitOnChar calls ';'
       let m := modelOut (Framing.serve (cfgOf lit preauth) inp)
       let ag := agree { m with wire := stripOff m.wire } implWire endi implCalls
-      let orc := oracle inp w endi implCalls closes panics drained
+      let orc := oracle inp w endi implCalls closes panics drained idle
       s!"{id}\t{boolStr ag}\t{orc}\t{joinWith " " m.wire} end={m.endm} calls={joinWith ";" m.calls}"
     | _, _ => s!"{id}\t0\tfail:bad-line\t-"
   | id :: _ => s!"{id}\t0\tfail:bad-line\t-"
